@@ -1856,17 +1856,44 @@ func c08r21(rc *core.RC) {
 			why := core.Src(p.Fset, arg)
 			if id, isID := arg.(*ast.Ident); isID {
 				obj := core.ObjOf(info, id)
+				var boxObj types.Object
 				ast.Inspect(fd.Body, func(k ast.Node) bool {
 					as, isAs := k.(*ast.AssignStmt)
-					if !isAs || len(as.Lhs) != 1 || len(as.Rhs) != 1 || core.ObjOf(info, as.Lhs[0]) != obj {
+					if !isAs || len(as.Lhs) < 1 || len(as.Rhs) != 1 || core.ObjOf(info, as.Lhs[0]) != obj {
 						return true
 					}
 					why = core.Src(p.Fset, as.Rhs[0])
 					if c, isCall := core.Unparen(as.Rhs[0]).(*ast.CallExpr); isCall && core.CalleeName(info, c) == "json.rootPointer" {
 						ok2 = true
+						if len(as.Lhs) == 2 {
+							boxObj = core.ObjOf(info, as.Lhs[1])
+						}
 					}
 					return true
 				})
+				// the copy of the word is known to the interpreter as a uintptr only: it is put into KeepRefs, and after Init,
+				// which empties KeepRefs
+				if ok2 {
+					kept := false
+					ast.Inspect(fd.Body, func(k ast.Node) bool {
+						as, isAs := k.(*ast.AssignStmt)
+						if !isAs || len(as.Lhs) != 1 || len(as.Rhs) != 1 || as.Pos() < call.End() {
+							return true
+						}
+						if f := core.FieldOf(info, as.Lhs[0]); f == nil || f.Name() != "KeepRefs" {
+							return true
+						}
+						if c, isCall := core.Unparen(as.Rhs[0]).(*ast.CallExpr); isCall && core.IsBuiltin(info, c, "append") {
+							for _, a := range c.Args[1:] {
+								if boxObj != nil && core.ObjOf(info, a) == boxObj {
+									kept = true
+								}
+							}
+						}
+						return true
+					})
+					rc.Check(kept, fn+"/root-pointer copy-kept-alive-after-Init", call.Pos(), "the copy of the interface word that rootPointer returns is appended to ctx.KeepRefs behind the call of Init (Init empties KeepRefs): the interpreter holds it as a uintptr only, so nothing else keeps it from the garbage collector")
+				}
 			}
 			rc.Check(ok2, key, call.Pos(), "the program of the root value is started with the result of rootPointer, which boxes a value that is the interface word itself (here: %s); started with the bare word, the program of a one-element array of pointers reads the pointee as the element", why)
 			return true
@@ -1885,7 +1912,7 @@ func c08r21(rc *core.RC) {
 		good, bare := true, 0
 		ast.Inspect(fd.Body, func(m ast.Node) bool {
 			ret, ok := m.(*ast.ReturnStmt)
-			if !ok || len(ret.Results) != 1 {
+			if !ok || len(ret.Results) < 1 {
 				return true
 			}
 			// a return of uintptr(<parameter>) is the bare word
@@ -2107,5 +2134,92 @@ func c08r22(rc *core.RC) {
 	}
 	if n < 1 {
 		rc.Unknown("encoder/extensions", token.NoPos, "no re-slice of the form x[len : len+n] found in the encoder (confirmed: AppendByteSlice)")
+	}
+}
+
+// ---- C08.R23 reflect.Value.IsNil only for the kinds that have a nil ----
+
+// reflect.Value.IsNil panics for every kind but Chan, Func, Interface, Map, Ptr, Slice and UnsafePointer. Where
+// the module calls IsNil inside a switch on the value's kind, the clause that calls it must be labelled with those
+// kinds only: an Array merged into the Slice/Map clause makes Marshal panic on every omitempty member that is an
+// array with a marshal method ([16]byte UUIDs).
+func c08r23(rc *core.RC) {
+	p := rc.P
+	nilable := map[string]bool{"Chan": true, "Func": true, "Interface": true, "Map": true, "Ptr": true, "Pointer": true, "Slice": true, "UnsafePointer": true}
+	n := 0
+	for _, pk := range p.LibPkgs() {
+		for _, f := range pk.Syntax {
+			for _, d := range f.Decls {
+				fd, ok := d.(*ast.FuncDecl)
+				if !ok || fd.Body == nil {
+					continue
+				}
+				info := pk.TypesInfo
+				fn := p.FuncName(fd)
+				k := 0
+				ast.Inspect(fd.Body, func(m ast.Node) bool {
+					sw, ok := m.(*ast.SwitchStmt)
+					if !ok || sw.Tag == nil {
+						return true
+					}
+					tagCall, ok := core.Unparen(sw.Tag).(*ast.CallExpr)
+					if !ok {
+						return true
+					}
+					tagSel, ok := core.Unparen(tagCall.Fun).(*ast.SelectorExpr)
+					if !ok || tagSel.Sel.Name != "Kind" {
+						return true
+					}
+					recv := core.ObjOf(info, tagSel.X)
+					if t := info.TypeOf(tagSel.X); t == nil || t.String() != "reflect.Value" || recv == nil {
+						return true
+					}
+					for _, c := range sw.Body.List {
+						cc := c.(*ast.CaseClause)
+						if len(cc.List) == 0 {
+							continue
+						}
+						calls := false
+						for _, st := range cc.Body {
+							ast.Inspect(st, func(x ast.Node) bool {
+								if inner, isSw := x.(*ast.SwitchStmt); isSw && inner != sw {
+									return false
+								}
+								call, isCall := x.(*ast.CallExpr)
+								if !isCall {
+									return true
+								}
+								if sel, isSel := core.Unparen(call.Fun).(*ast.SelectorExpr); isSel && sel.Sel.Name == "IsNil" && core.ObjOf(info, sel.X) == recv {
+									calls = true
+								}
+								return true
+							})
+						}
+						if !calls {
+							continue
+						}
+						k++
+						n++
+						rc.Touch(fn)
+						var bad []string
+						for _, l := range cc.List {
+							if sel, isSel := core.Unparen(l).(*ast.SelectorExpr); isSel {
+								if !nilable[sel.Sel.Name] {
+									bad = append(bad, sel.Sel.Name)
+								}
+							} else {
+								bad = append(bad, core.Src(p.Fset, l))
+							}
+						}
+						key := fmt.Sprintf("%s/IsNil-clause#%d nilable-kinds-only", fn, k)
+						rc.Check(len(bad) == 0, key, cc.Pos(), "the clause that calls IsNil on the switched value is labelled with kinds that have a nil%s", map[bool]string{true: "", false: "; it also carries " + strings.Join(bad, ", ") + ", for which reflect.Value.IsNil panics"}[len(bad) == 0])
+					}
+					return true
+				})
+			}
+		}
+	}
+	if n < 2 {
+		rc.Unknown("module/IsNil-in-kind-switch", token.NoPos, "found %d clauses of a kind switch that call IsNil on the switched value", n)
 	}
 }
